@@ -410,6 +410,15 @@ class LBRun(object):
         self.pending_violation = v
       raise v
 
+  def raised(self, what, e):
+    """The balancer raised on a valid operation: whatever it was doing (returning load, picking a member,
+    updating membership) did not happen."""
+    import traceback
+    where = traceback.extract_tb(e.__traceback__)[-1]
+    detail = 'balancer raised %r while %s (%s:%d)' % (e, what, where.filename.rsplit('/', 1)[-1], where.lineno)
+    for prop in ('C03', 'C04', 'C05', 'C06'):
+      self.viol(prop, 'balancer-raised', detail)
+
   def raise_pending(self):
     if self.pending_violation is not None:
       raise self.pending_violation
@@ -467,7 +476,12 @@ class LBRun(object):
     members = self.model_members()
     before = dict((ch, ch.outstanding) for ch in self.chans.created)
     self.selection = None
-    self.lb.AsyncProcessRequest(st, msg, None, {})
+    try:
+      self.lb.AsyncProcessRequest(st, msg, None, {})
+    except Violation:
+      raise
+    except Exception as e:
+      self.raised('dispatching a request', e)
     if not was_open:
       self.flags.add('dispatch_before_open')
       return
@@ -530,7 +544,12 @@ class LBRun(object):
       m = MethodReturnMessage('ok')
     if r.channel.removed_at is not None:
       self.flags.add('completion_on_removed')
-    r.stack.AsyncProcessResponseMessage(m)
+    try:
+      r.stack.AsyncProcessResponseMessage(m)
+    except Violation:
+      raise
+    except Exception as e:
+      self.raised('completing request %d on %r' % (r.id, r.channel), e)
 
   def op_dup(self, i):
     done = [r for r in self.reqs if r.completions and r.channel is not None]
